@@ -363,6 +363,25 @@ func (e *Eng) loopHeader(fr *Frame, h *ssa.BasicBlock, phis []*ssa.Phi, cur *Sta
 	}
 	// 1. entry obligations
 	env := e.loopEnv(fr, h, phis, nil)
+	if fr.fspec != nil {
+		// shape clauses: what the invariants take for granted about the loop itself (e.g. where its counter starts).
+		// They are checked like entry obligations, but a failure is reported as "contract out of step with the code"
+		var ps []string
+		for _, inv := range invs {
+			ps = mergeProps(ps, inv.Props)
+		}
+		for _, sh := range fr.fspec.LoopShapes[ord] {
+			func() {
+				defer func() {
+					if r := recover(); r != nil {
+						e.errf("loop #%d shape clause %s cannot be evaluated (%v): the loop no longer has the shape its invariants were written for", ord, sh.Label, r)
+					}
+				}()
+				t := e.evalClause(sh, env, cur, fr.oldFor(cur), fr)
+				e.oblige("shape", fmt.Sprintf("#%d/%s", ord, sh.Label), mergeProps(ps, sh.Props), h.Instrs[0].Pos(), g, t)
+			}()
+		}
+	}
 	for _, inv := range invs {
 		t := e.evalClause(inv, env, cur, fr.oldFor(cur), fr)
 		e.oblige("loop-entry", fmt.Sprintf("#%d/%s", ord, inv.Label), inv.Props, h.Instrs[0].Pos(), g, t)
